@@ -381,7 +381,7 @@ Proof.
         pose proof (in_tmp_layout_placed w k d o P L Ho) as Hin.
         unfold mk_piece, handle_dir. destruct dir; cbn [present].
         -- destruct (is_nil (fst (t_lbl d))) eqn:Epkg.
-           ++ exfalso. rewrite Epkg in R. cbn [andb] in R. apply orb_false_iff in R as [_ R]. apply negb_false_iff in R.
+           ++ exfalso. try rewrite Epkg in R. try rewrite Eep in R. cbn [andb negb orb] in R. apply negb_false_iff in R.
               destruct (t_outs d); [destruct Ho | discriminate].
            ++ cbn [negb andb]. apply existsb_exists. exists (join (fst (t_lbl d)) o). split; [exact Hin|].
               apply dir_of_join; assumption.
@@ -405,8 +405,265 @@ Proof.
       pose proof (in_tmp_layout_placed w k d o P L Ho) as Hin.
       unfold mk_piece, handle_dir. destruct dir; cbn [present].
       * destruct (is_nil (fst (t_lbl d))) eqn:Epkg.
-        -- exfalso. rewrite Epkg, Eep in R. cbn [andb negb orb] in R. discriminate R.
+        -- exfalso. try rewrite Epkg in R. try rewrite Eep in R. cbn [andb negb orb] in R. discriminate R.
         -- cbn [negb andb]. apply existsb_exists. exists (join (fst (t_lbl d)) o). split; [exact Hin|].
            apply dir_of_join; assumption.
       * apply existsb_exists. exists (join (fst (t_lbl d)) o). split; [exact Hin | apply covers_join; assumption].
 Qed.
+
+(* ---- the sequence level ------------------------------------------------------------------------------------------- *)
+
+Lemma wf_world_tgt w k d : wf_world w = true -> lookup_tgt k (w_graph w) = Some d -> wf_tgt d = true.
+Proof.
+  intros WF L. unfold wf_world in WF. rewrite forallb_forall in WF. apply WF. exact (proj1 (lookup_tgt_some _ _ _ L)).
+Qed.
+
+(* C37_exists, as far as the code allows: a build-command sequence in none of the defect classes expands to
+   paths that are present (build directory / plz-out / absolute plz-out) *)
+Theorem exists_partial w fl inp text ps :
+  wf_world w = true -> replace_sequence w false fl inp = ROk (text, ps) -> defect_class w fl inp = None ->
+  forall p, In p ps -> present w p = true.
+Proof.
+  destruct fl as [[[[runnable multiple] dir] outp] hash]. intros WF H D.
+  unfold replace_sequence in H. unfold defect_class in D. cbv beta iota in H, D.
+  destruct (looks_like_label inp).
+  - destruct (split_entry_point inp) as [lbl_s ep].
+    destruct (C20.try_parse lbl_s (w_pkg w) []) as [l| |]; try discriminate.
+    unfold replace_label in H.
+    destruct (is_nil (C20.l_sub l)); [|discriminate]. cbn [negb] in D.
+    set (k := (C20.l_pkg l, C20.l_name l)) in *.
+    destruct (lbl_eqb k (t_lbl (w_self w))); [discriminate D|].
+    destruct (declared w k) eqn:Dk; [|discriminate].
+    destruct (lookup_tgt k (w_graph w)) as [d|] eqn:L; [|discriminate].
+    apply (car_present w runnable multiple dir outp hash (is_tool w k) d ep lbl_s text ps k
+             (wf_world_tgt _ _ _ WF L) L Dk H).
+    unfold dep_ok. destruct hash; [left; reflexivity|]. destruct outp; [right; left; reflexivity|].
+    cbn [orb] in D. right. right.
+    destruct (is_nil ep) eqn:Eep; cbn [negb] in D.
+    + destruct (is_tool w k); [left; split; reflexivity|]. right.
+      destruct (placed_whole w k d); cbn [negb] in D; [|discriminate D].
+      split; [reflexivity|]. split; [reflexivity|]. cbn [negb orb].
+      destruct (dir && is_nil (fst (t_lbl d)) && negb (is_nil (t_outs d))); [discriminate D | reflexivity].
+    + destruct (is_tool w k); [discriminate D|]. right.
+      destruct (placed_whole w k d); cbn [negb] in D; [|discriminate D].
+      split; [reflexivity|]. split; [reflexivity|]. cbn [negb orb].
+      destruct (dir && is_nil (fst (t_lbl d))); [discriminate D | reflexivity].
+  - destruct (runnable && existsb (input_string_is inp) (w_tools w)).
+    { injection H as _ <-. intros p [<-|[]]. reflexivity. }
+    destruct hash.
+    { injection H as _ <-. intros p [<-|[]]. reflexivity. }
+    destruct (has_prefix (s "/") inp).
+    { injection H as _ <-. intros p [<-|[]]. reflexivity. }
+    destruct (file_declared w inp) eqn:F; [|discriminate D].
+    injection H as _ <-. intros p [<-|[]].
+    unfold file_declared in F. apply existsb_exists in F as [i [Hi Hc]]. destruct i as [f| | |]; try discriminate.
+    apply (present_file_tmp w _ (join (w_pkg w) f)); [|exact Hc].
+    unfold tmp_layout. apply in_or_app. left. apply in_flat_map. exists (IFile f). split; [exact Hi | left; reflexivity].
+Qed.
+
+(* the text of an expansion is its pieces, quoted, separated by one space *)
+Definition text_of (text : str) (ps : list piece) : Prop :=
+  text = trim_right_sp (txt ps) \/ exists p, ps = [p] /\ text = piece_text p.
+
+Lemma car_shape w test fl is_self tool all d ep inp text ps :
+  check_and_replace w test fl is_self tool all d ep inp = ROk (text, ps) -> text_of text ps.
+Proof.
+  destruct fl as [[[[runnable multiple] dir] outp] hash]. unfold check_and_replace. intro H.
+  destruct (all && negb multiple && Nat.ltb 1 (length (t_outs d)) && is_nil ep); [discriminate|].
+  destruct (runnable && negb (t_binary d)); [discriminate|].
+  destruct (runnable && is_nil (t_outs d)); [discriminate|].
+  destruct (test && tool); [discriminate|].
+  destruct hash.
+  { injection H as <- <-. right. eexists. split; reflexivity. }
+  destruct (is_nil ep).
+  - injection H as <- <-. left. reflexivity.
+  - destruct (assoc ep (t_eps d)); [|discriminate]. injection H as <- <-. right. eexists. split; reflexivity.
+Qed.
+
+Lemma rs_shape w test fl inp text ps : replace_sequence w test fl inp = ROk (text, ps) -> text_of text ps.
+Proof.
+  destruct fl as [[[[runnable multiple] dir] outp] hash]. unfold replace_sequence. cbv beta iota. intro H.
+  destruct (looks_like_label inp).
+  - destruct (split_entry_point inp) as [lbl_s ep].
+    destruct (C20.try_parse lbl_s (w_pkg w) []) as [l| |]; try discriminate.
+    unfold replace_label in H. destruct (is_nil (C20.l_sub l)); [|discriminate].
+    destruct (lbl_eqb _ _); [exact (car_shape _ _ _ _ _ _ _ _ _ _ _ H)|].
+    destruct (declared _ _); [|discriminate]. destruct (lookup_tgt _ _); [|discriminate].
+    exact (car_shape _ _ _ _ _ _ _ _ _ _ _ H).
+  - destruct (runnable && existsb (input_string_is inp) (w_tools w)).
+    { injection H as <- <-. right. eexists. split; reflexivity. }
+    destruct hash.
+    { injection H as <- <-. right. eexists. split; reflexivity. }
+    destruct (has_prefix (s "/") inp); injection H as <- <-; right; eexists; split; reflexivity.
+Qed.
+
+(* C37_one_word: when every produced path is a word the splitter can vouch for, the expansion is exactly those words *)
+Theorem one_word w test fl inp text ps :
+  replace_sequence w test fl inp = ROk (text, ps) -> forallb piece_ok ps = true ->
+  shell_words text = Some (map piece_word ps).
+Proof.
+  intros H OK. destruct (rs_shape _ _ _ _ _ _ H) as [->|[p [-> ->]]].
+  - exact (words_of_pieces ps OK).
+  - cbn [forallb] in OK. apply andb_true_iff in OK as [OK _]. exact (words_of_piece p OK).
+Qed.
+
+(* ... in particular for names made of ordinary characters and the operators `quote` handles (uses the regenerated set) *)
+Theorem one_word_names w test fl inp text ps :
+  replace_sequence w test fl inp = ROk (text, ps) -> forallb piece_name_ok ps = true ->
+  shell_words text = Some (map piece_word ps).
+Proof.
+  intros H OK. apply (one_word _ _ _ _ _ _ H). rewrite forallb_forall in *. intros p Hp.
+  exact (piece_name_ok_ok p (OK p Hp)).
+Qed.
+
+(* ---- rejection ------------------------------------------------------------------------------------------------------ *)
+
+Definition is_some {A} (o : option A) : bool := match o with Some _ => true | None => false end.
+
+(* the argument looks like a label but names nothing the rule depends on (nor the rule itself) *)
+Definition names_label_not_dependency (w : world) (inp : str) : bool :=
+  looks_like_label inp &&
+  (let (lbl_s, _) := split_entry_point inp in
+   match C20.try_parse lbl_s (w_pkg w) [] with
+   | C20.Parsed l =>
+       let k := (C20.l_pkg l, C20.l_name l) in
+       negb (is_nil (C20.l_sub l))
+       || (negb (lbl_eqb k (t_lbl (w_self w))) && negb (declared w k && is_some (lookup_tgt k (w_graph w))))
+   | C20.Invalid => true
+   | C20.OutOfFuel => false
+   end).
+
+(* the argument is a plain name that is neither a source file of the rule, nor one of its system tools, nor absolute *)
+Definition names_file_not_dependency (w : world) (fl : flags) (inp : str) : bool :=
+  let '(runnable, _, _, _, hash) := fl in
+  negb (looks_like_label inp) && negb (runnable && existsb (input_string_is inp) (w_tools w)) && negb hash
+  && negb (has_prefix (s "/") inp) && negb (file_declared w inp).
+
+Theorem rejects_label w test fl inp : names_label_not_dependency w inp = true -> replace_sequence w test fl inp = RErr.
+Proof.
+  destruct fl as [[[[runnable multiple] dir] outp] hash]. unfold names_label_not_dependency, replace_sequence.
+  cbv beta iota. intro H. apply andb_true_iff in H as [-> H].
+  destruct (split_entry_point inp) as [lbl_s ep].
+  destruct (C20.try_parse lbl_s (w_pkg w) []) as [l| |]; [|reflexivity|discriminate].
+  unfold replace_label. destruct (is_nil (C20.l_sub l)); [|reflexivity]. cbn [negb orb] in H.
+  apply andb_true_iff in H as [H1 H2]. apply negb_true_iff in H1, H2. rewrite H1.
+  destruct (declared w _); [|reflexivity]. destruct (lookup_tgt _ _); [discriminate H2 | reflexivity].
+Qed.
+
+(* the argument resolves to the dependency d *)
+Definition resolves (w : world) (inp lbl_s ep : str) (d : tgt) : Prop :=
+  looks_like_label inp = true /\ split_entry_point inp = (lbl_s, ep) /\
+  exists l, C20.try_parse lbl_s (w_pkg w) [] = C20.Parsed l /\ is_nil (C20.l_sub l) = true /\
+            lbl_eqb (C20.l_pkg l, C20.l_name l) (t_lbl (w_self w)) = false /\
+            declared w (C20.l_pkg l, C20.l_name l) = true /\
+            lookup_tgt (C20.l_pkg l, C20.l_name l) (w_graph w) = Some d.
+
+Lemma resolves_eq w test fl inp lbl_s ep d : resolves w inp lbl_s ep d ->
+  exists tool, replace_sequence w test fl inp = check_and_replace w test fl false tool true d ep lbl_s.
+Proof.
+  destruct fl as [[[[runnable multiple] dir] outp] hash]. intros [LL [SP [l [P [S [NS [D L]]]]]]].
+  unfold replace_sequence. cbv beta iota. rewrite LL, SP, P. unfold replace_label. rewrite S, NS, D, L.
+  eexists. reflexivity.
+Qed.
+
+(* $(location), $(exe), $(out_location), $(out_exe) of a dependency with several outputs *)
+Theorem rejects_wrong_count w test runnable dir outp hash inp lbl_s d :
+  resolves w inp lbl_s [] d -> (1 < length (t_outs d))%nat ->
+  replace_sequence w test (runnable, false, dir, outp, hash) inp = RErr.
+Proof.
+  intros R N. destruct (resolves_eq w test (runnable, false, dir, outp, hash) _ _ _ _ R) as [tool ->].
+  unfold check_and_replace. apply Nat.ltb_lt in N. rewrite N. reflexivity.
+Qed.
+
+(* $(exe) of something that is not a binary *)
+Theorem rejects_not_binary w test multiple dir outp hash inp lbl_s ep d :
+  resolves w inp lbl_s ep d -> t_binary d = false ->
+  replace_sequence w test (true, multiple, dir, outp, hash) inp = RErr.
+Proof.
+  intros R N. destruct (resolves_eq w test (true, multiple, dir, outp, hash) _ _ _ _ R) as [tool ->].
+  unfold check_and_replace. rewrite N. cbn [negb andb].
+  match goal with |- (if ?c then _ else _) = _ => destruct c end; reflexivity.
+Qed.
+
+(* an entry point the dependency does not have: never an expansion (an error, or log.Fatalf) *)
+Theorem rejects_unknown_entry_point w test fl inp lbl_s ep d :
+  resolves w inp lbl_s ep d -> is_nil ep = false -> assoc ep (t_eps d) = None ->
+  replace_sequence w test fl inp = RErr \/ replace_sequence w test fl inp = RFatal
+  \/ (exists h, replace_sequence w test fl inp = ROk (h, [PRaw h]) /\ snd fl = true).
+Proof.
+  intros R N A. destruct (resolves_eq w test fl _ _ _ _ R) as [tool ->].
+  destruct fl as [[[[runnable multiple] dir] outp] hash]. unfold check_and_replace. rewrite N, A.
+  destruct (true && negb multiple && Nat.ltb 1 (length (t_outs d)) && false); [left; reflexivity|].
+  destruct (runnable && negb (t_binary d)); [left; reflexivity|].
+  destruct (runnable && is_nil (t_outs d)); [left; reflexivity|].
+  destruct (test && tool); [left; reflexivity|].
+  destruct hash; [|right; left; reflexivity].
+  right. right. eexists. split; reflexivity.
+Qed.
+
+Lemma car_no_fuel w test fl is_self tool all d ep inp : check_and_replace w test fl is_self tool all d ep inp <> RFuel.
+Proof.
+  destruct fl as [[[[runnable multiple] dir] outp] hash]. unfold check_and_replace.
+  destruct (all && negb multiple && Nat.ltb 1 (length (t_outs d)) && is_nil ep); [discriminate|].
+  destruct (runnable && negb (t_binary d)); [discriminate|].
+  destruct (runnable && is_nil (t_outs d)); [discriminate|].
+  destruct (test && tool); [discriminate|].
+  destruct hash; [discriminate|]. destruct (is_nil ep); [discriminate|].
+  destruct (assoc ep (t_eps d)); discriminate.
+Qed.
+
+(* the fuel of the label parser is always enough *)
+Theorem never_out_of_fuel w test fl inp : replace_sequence w test fl inp <> RFuel.
+Proof.
+  destruct fl as [[[[runnable multiple] dir] outp] hash]. unfold replace_sequence. cbv beta iota.
+  destruct (looks_like_label inp).
+  - destruct (split_entry_point inp) as [lbl_s ep].
+    destruct (C20.try_parse lbl_s (w_pkg w) []) as [l| |] eqn:P; [|discriminate|].
+    + unfold replace_label. destruct (is_nil (C20.l_sub l)); [|discriminate].
+      destruct (lbl_eqb _ _); [apply car_no_fuel|].
+      destruct (declared _ _); [|discriminate]. destruct (lookup_tgt _ _); [apply car_no_fuel | discriminate].
+    + exfalso. exact (C20_Parse.try_parse_never_out_of_fuel _ _ _ P).
+  - destruct (runnable && existsb (input_string_is inp) (w_tools w)); [discriminate|].
+    destruct hash; [discriminate|]. destruct (has_prefix (s "/") inp); discriminate.
+Qed.
+
+(* ---- witnesses of the defects of the unchanged code ------------------------------------------------------------------ *)
+
+Definition loc_flags : flags := (false, false, false, false, false).       (* $(location) *)
+Definition locs_flags : flags := (false, true, false, false, false).       (* $(locations) *)
+Definition exe_flags : flags := (true, false, false, false, false).        (* $(exe) *)
+Definition dir_flags : flags := (false, true, true, false, false).         (* $(dir) *)
+
+Definition self_p : tgt := T (s "p", s "gen") [s "gen.out"] [] [] false.
+
+(* an output named `a b.txt` *)
+Definition w_space : world :=
+  mk_world self_p [ILabel (s "p", s "sp")] [] [] [T (s "p", s "sp") [s "a b.txt"] [] [] false] (s "/r").
+
+Lemma loc_flags_in : In loc_flags (map snd passes).
+Proof. left. reflexivity. Qed.
+
+Lemma w_space_wf : wf_world w_space = true.
+Proof. reflexivity. Qed.
+
+Lemma w_space_expands :
+  replace_sequence w_space false loc_flags (s ":sp") = ROk (s "p/a b.txt", [PFile InTmp (s "p/a b.txt")]).
+Proof. vm_compute. reflexivity. Qed.
+
+Lemma w_space_fails :
+  (forall p, In p [PFile InTmp (s "p/a b.txt")] -> present w_space p = true)
+  /\ shell_words (s "p/a b.txt") = Some (map piece_word [PFile InTmp (s "p/a b.txt")]) -> False.
+Proof. intros [_ H]. vm_compute in H. discriminate H. Qed.
+
+(* a file that is not a source *)
+Definition w_nofile : world := mk_world self_p [] [] [] [] (s "/r").
+(* a source //p:named|n1 *)
+Definition w_named : world :=
+  mk_world self_p [IAnnot (s "p", s "named") (s "n1")] [] []
+           [T (s "p", s "named") [s "n1.txt"; s "n2.txt"] [(s "n1", [s "n1.txt"]); (s "n2", [s "n2.txt"])] [] false] (s "/r").
+(* a tool with an entry point *)
+Definition w_toolep : world :=
+  mk_world self_p [] [ILabel (s "p", s "tool")] [] [T (s "p", s "tool") [s "bin/t.sh"] [] [(s "main", s "bin/t.sh")] true] (s "/r").
+(* a dependency in the root package *)
+Definition w_rootdir : world :=
+  mk_world (T ([], s "gen") [s "gen.out"] [] [] false) [ILabel ([], s "rootdep")] [] [] [T ([], s "rootdep") [s "r.txt"] [] [] false] (s "/r").
